@@ -305,7 +305,7 @@ func runEntry(prog *ssa.Program, fn *ssa.Function, er *EntryResult, tier int, so
 		if replay != "" {
 			break
 		}
-		if len(in.stats.Violations) >= 8 {
+		if len(in.stats.Violations) >= 40 {
 			break
 		}
 	}
